@@ -329,7 +329,7 @@ def rule_inventory(ctx, rep):
     return by_loc
 
 
-def _context_manager_pair(model, ws):
+def _context_manager_pair(model, ws, cg=None):
     """If a location is written in __enter__ and in __exit__ of one class: (class, every construction of the class is
     the context expression of a with statement, why)."""
     classes = {}
@@ -353,6 +353,13 @@ def _context_manager_pair(model, ws):
                         uses += 1
                         if id(n) not in withs:
                             bad = 'it is constructed outside a with statement in %s (line %d)' % (u.modname, n.lineno)
+        if uses == 0 and cg is not None:
+            # constructions the call graph resolved (cls.Inner(), aliases)
+            for caller, call in cg.ctor_sites.get(klass.qualname, []):
+                uses += 1
+                par = getattr(call, '_parent', None)
+                if not (isinstance(par, ast.withitem) and par.context_expr is call):
+                    bad = 'it is constructed outside a with statement in %s (line %d)' % (caller.short, call.lineno)
         if uses == 0:
             return klass, False, 'it is never used'
         if bad:
@@ -381,7 +388,7 @@ def rule_override(ctx, rep, by_loc=None, RULE='D-OVERRIDE'):
             by_fn.setdefault(w.fi.qualname, []).append(w)
         # override in __enter__ / restore in __exit__ of one class that is only ever used as `with C(...):` - the
         # with statement runs __exit__ on every exit, exceptional ones included
-        cm = _context_manager_pair(model, ws)
+        cm = _context_manager_pair(model, ws, ctx.callgraph())
         if cm is not None:
             klass, uses_ok, why = cm
             rep.instance(RULE)
